@@ -117,8 +117,9 @@ func runNewConn(record []byte, keys []ech.Key) obsNewConn {
 	select {
 	case o := <-ch:
 		return o
-	case <-time.After(5 * time.Second):
-		return obsNewConn{Kind: "panic", Panic: "hang: NewConn/Read did not return within 5 s"}
+	case <-time.After(watchdogLimit()):
+		noteHang()
+		return obsNewConn{Kind: "panic", Panic: "hang: NewConn/Read did not return within the watchdog limit (20 s)"}
 	}
 }
 
